@@ -290,6 +290,7 @@ func TestC18ConnectSetup(t *testing.T) {
 			case "raw":
 				raw := rapid.SampledFrom([][]byte{
 					{0x20, 2, 2, 0}, {0x20, 2, 0x80, 0}, {0x20, 2, 0xfe, 0}, // reserved flags
+					{0x20, 2, 3, 0}, {0x20, 2, 0x81, 0}, {0x20, 2, 0xff, 0}, // reserved flags next to session-present
 					{0x20, 3, 0, 0, 0}, {0x20, 1, 0}, {0x20, 0}, // wrong length
 					{0x21, 2, 0, 0}, {0x30, 2, 0, 0}, {0x90, 2, 0, 0}, {0xd0, 0}, // wrong type or header flags
 					{0x20}, {0x20, 2}, {0x20, 2, 0}, // truncated, then silence
